@@ -283,6 +283,7 @@ def extend_schema(
             )
 
     default_resolver = schema.default_resolver
+    source_schema = schema
 
     schema = Schema(
         query_type=operation_types["query"],
@@ -293,6 +294,24 @@ def extend_schema(
         nodes=(schema.nodes or []) + (schema_exts or []),  # type: ignore
     )
     schema.default_resolver = default_resolver
+
+    # The extended fields carry their resolvers, the registry follows them.
+    for source, target in (
+        (source_schema.resolvers, schema.resolvers),
+        (source_schema.subscriptions, schema.subscriptions),
+    ):
+        for typename, resolvers in source.items():
+            extended_type = schema.types.get(typename)
+            if isinstance(extended_type, ObjectType):
+                target[typename] = {
+                    fieldname: resolver
+                    for fieldname, resolver in resolvers.items()
+                    if fieldname in extended_type.field_map
+                }
+
+    for typename, resolver in source_schema.default_resolvers.items():
+        if isinstance(schema.types.get(typename), ObjectType):
+            schema.default_resolvers[typename] = resolver
 
     if schema_directives is not None:
         schema = apply_schema_directives(schema, schema_directives)
